@@ -105,6 +105,9 @@ TCPStream::TCPStream(const TCPStream& rhs) {
 }
 
 TCPStream& TCPStream::operator=(const TCPStream& rhs) {
+    if (this == &rhs) {
+        return *this;
+    }
     client_seq_ = rhs.client_seq_;
     server_seq_ = rhs.server_seq_;
     info_ = rhs.info_;
@@ -113,6 +116,8 @@ TCPStream& TCPStream::operator=(const TCPStream& rhs) {
     fin_sent_ = rhs.fin_sent_;
     client_payload_ = rhs.client_payload_;
     server_payload_ = rhs.server_payload_;
+    free_fragments(client_frags_);
+    free_fragments(server_frags_);
     client_frags_ = clone_fragments(rhs.client_frags_);
     server_frags_ = clone_fragments(rhs.server_frags_);
     return* this;
